@@ -34,8 +34,14 @@ def r1(ctx):
     ren = {sitev[0]: 'pos', 'start': 'start', 'end': 'end', 'contig': 'cj'}
     if contv:
         ren[contv[0]] = 'c'
-    ncase, bad = check_pred(t, lambda e: e['c'] != e['cj'] or not (e['start'] <= e['pos'] < e['end']), symbols=['pos', 'start', 'end', 'c', 'cj'],
-                            constraint=lambda e: e['start'] < e['end'] and e['c'] in (0, 1) and e['cj'] in (0, 1), atom_name=lambda x: ren.get(src(x)))
+    syms = ['pos', 'start', 'end', 'c', 'cj']
+    # a test merged with the fetch-window test: the fetch window contains the bin (C17-R9), so fetch_start <= start and end <= fetch_end
+    fw = [n_ for n_ in ('fetch_start', 'fetch_end') if n_ in names_in(t)]
+    for n_ in fw:
+        ren[n_] = n_
+    ncase, bad = check_pred(t, lambda e: e['c'] != e['cj'] or not (e['start'] <= e['pos'] < e['end']), symbols=syms + fw,
+                            constraint=lambda e: e['start'] < e['end'] and e['c'] in (0, 1) and e['cj'] in (0, 1) and e.get('fetch_start', e['start']) <= e['start'] and e['end'] <= e.get('fetch_end', e['end']),
+                            atom_name=lambda x: ren.get(src(x)))
     ctx.counters['abstract_cases'] += ncase
     eff = type(cands[0].body[0]).__name__
     ctx.emit('C08-R1', not bad and eff == 'Continue', TAGGING, cands[0], f'skip test `{src(t)}` over {ncase} cases ' +
@@ -143,7 +149,16 @@ def r4(ctx):
     from . import C17
     w = C17.window_analysis(ctx)
     problems = w['c17'] + w['exact']
-    ctx.emit('C08-R4', not problems, BINCOUNTS, w['y'], 'fetch window == (max(gap start, bin start - F), min(gap end, bin end + F)) for every bin' if not problems else '; '.join(problems),
+    if problems:
+        # the structural reading did not follow the window arithmetic: the tiling model (C17-R9) checks the same equality on every small tiling problem
+        m = C17.tiling_model(ctx)
+        if m is not None and m[0]:
+            ctx.counters['interpreted_cases'] = ctx.counters.get('interpreted_cases', 0) + m[1]
+            ctx.emit('C08-R4', True, BINCOUNTS, w['y'], f'fetch window == (max(gap start, bin start - F), min(gap end, bin end + F)) for every bin of {m[1]} interpreted tiling problems (the symbolic reading did not follow: {problems[0][:80]})',
+                     key='window-exact')
+            problems = None
+    if problems is not None:
+        ctx.emit('C08-R4', not problems, BINCOUNTS, w['y'], 'fetch window == (max(gap start, bin start - F), min(gap end, bin end + F)) for every bin' if not problems else '; '.join(problems),
              key='window-exact', witness=w['witness'], what='blacklisted_binning: a bin is fetched with less margin than the fragment size although the gap allows it')
     f = ctx.fn(BTM, 'run_multiome_tagging')
     mod = ctx.ix.module(BTM)
